@@ -20,7 +20,7 @@
 (* invariants, NoIdle, Termination) over to the code.  A disagreement is    *)
 (* transcription drift (information, exit 2 on the unchanged tree), never a *)
 (* property violation.  Not replayed: dyndep graphs, cyclic graphs, dry     *)
-(* runs, jobserver, interrupts, crashes, edits while running.               *)
+(* runs, interrupts, crashes, edits while running.                          *)
 (***************************************************************************)
 EXTENDS NinjaImplMC
 
@@ -33,7 +33,7 @@ NoInv == [active |-> FALSE]
 TInit == /\ l = 1 /\ inv = NoInv /\ on = FALSE /\ res = [checked |-> 0, steps |-> 0, agree |-> 0, bad |-> {}]
          /\ raw = [srcs |-> <<>>, pools |-> <<>>, stmts |-> <<>>] /\ vers = <<>>
          /\ disk = [x \in {} |-> 0] /\ clock = 1 /\ blog = [x \in {} |-> 0] /\ dlog = [x \in {} |-> 0] /\ dfile = {}
-         /\ L = <<>> /\ F = {} /\ pc = "idle" /\ iv = Iv0 /\ ninv = 0 /\ nenv = 0 /\ kf = FALSE /\ last = [ok |-> FALSE, targets |-> <<>>]
+         /\ L = <<>> /\ F = {} /\ pc = "idle" /\ iv = Iv0 /\ ninv = 0 /\ nenv = 0 /\ kf = FALSE /\ last = [ok |-> FALSE, targets |-> <<>>, crashed |-> FALSE]
 
 RootSeq(gg) == LET RECURSIVE R(_) R(i) == IF i > Len(gg.stmts) THEN <<>> ELSE SelectSeq(gg.stmts[i].outs \o gg.stmts[i].iouts, LAMBDA o : o \in RootOuts(gg)) \o R(i + 1) IN R(1)
 FnOf(q, key) == [x \in {q[i][key] : i \in DOMAIN q} |-> q[CHOOSE i \in DOMAIN q : q[i][key] = x]]
@@ -44,9 +44,9 @@ Bad(what, detail) == IF Cardinality(res.bad) >= 20 THEN res.bad ELSE res.bad \cu
 RECURSIVE RunPhony(_, _)
 RunPhony(v, fuel) ==
   LET ph == {i \in v.ready : St(g, i).phony} IN
-  IF ph = {} \/ fuel = 0 \/ ~Budget(v) THEN v
+  IF ph = {} \/ fuel = 0 \/ ~Budget(v) \/ ~SlotFree(v) THEN v
   ELSE RunPhony(StartPhony(v, CHOOSE i \in ph : \A j \in ph : i <= j), fuel - 1)
-CanStartV(v) == Budget(v) /\ v.ready # {} /\ (Cardinality(v.running) < v.j \/ \E i \in v.ready : St(g, i).phony)
+CanStartV(v) == Budget(v) /\ v.ready # {} /\ (IF v.js >= 0 THEN SlotFree(v) ELSE (Cardinality(v.running) < v.j \/ \E i \in v.ready : St(g, i).phony))
 
 Keep == UNCHANGED <<raw, vers, disk, clock, blog, dlog, dfile, L, F, pc, iv, ninv, nenv, kf, last>>
 KeepW == UNCHANGED <<vers, clock, F, ninv, nenv, kf, last>>
@@ -58,8 +58,8 @@ TStep ==
             /\ raw' = E.g /\ vers' = [i \in DOMAIN E.g.stmts |-> 1] /\ inv' = NoInv /\ on' = FALSE
             /\ UNCHANGED <<disk, clock, blog, dlog, dfile, L, F, pc, iv, ninv, nenv, kf, last, res>>
        [] E.e = "Invoke" ->
-            /\ inv' = [active |-> TRUE, targets |-> E.targets, tree |-> E.tree, j |-> E.j, k |-> E.k,
-                       plain |-> ~E.dry /\ E.tok < 0 /\ E.intr < 0 /\ ~E.editrun /\ ("crash" \notin DOMAIN E \/ E.crash = "")]
+            /\ inv' = [active |-> TRUE, targets |-> E.targets, tree |-> E.tree, j |-> E.j, k |-> E.k, tok |-> E.tok,
+                       plain |-> ~E.dry /\ E.intr < 0 /\ ~E.editrun /\ ("crash" \notin DOMAIN E \/ E.crash = "")]
             /\ on' = FALSE /\ Keep /\ UNCHANGED res
        \* the model's world := the recorded world
        [] E.e = "Loaded" /\ inv.active ->
@@ -75,18 +75,19 @@ TStep ==
                /\ UNCHANGED <<raw, inv, on, res>> /\ KeepW
        \* scan + plan + initial schedule: the model's Invoke action itself
        [] E.e = "Scanned" /\ inv.active /\ inv.plain /\ ~Dyn(g) /\ AcyclicN(g, inv.tree, [i \in Ids(g) |-> LastNone], Ids(g)) /\ ninv < MaxInv ->
-            /\ Invoke(IF inv.targets = <<>> THEN RootSeq(g) ELSE inv.targets, inv.j, inv.k)
+            /\ Invoke(IF inv.targets = <<>> THEN RootSeq(g) ELSE inv.targets, inv.j, inv.k, IF inv.tok < 0 THEN 99 ELSE inv.tok)
             /\ on' = TRUE /\ res' = [res EXCEPT !.checked = @ + 1] /\ UNCHANGED inv
        [] E.e = "Start" /\ on ->
             LET v == RunPhony(iv, Fuel)
                 i == E.s
-                ok == pc = "build" /\ Budget(v) /\ i \in v.ready /\ Cardinality(v.running) < v.j
+                ok == pc = "build" /\ Budget(v) /\ i \in v.ready /\ (IF v.js >= 0 THEN SlotFree(v) ELSE Cardinality(v.running) < v.j)
                 v2 == StartCmd(v, i, Missing("-"), E.t)
-                runOK == {r.i : r \in v2.running} = ToS(E.run)
+                \* same commands running, and (jobserver) the same number of tokens left in the pool
+                runOK == {r.i : r \in v2.running} = ToS(E.run) /\ (v.js >= 0 => v2.free = E.fifo)
             IN /\ iv' = v2
                /\ res' = [res EXCEPT !.steps = @ + 1, !.agree = @ + (IF ok /\ runOK THEN 1 ELSE 0),
                                      !.bad = IF ~ok THEN Bad("the code started a statement the model does not have ready (or over -j / the failure budget)", ToString(<<i, v.ready, v.delayed, v.running>>))
-                                             ELSE IF ~runOK THEN Bad("running sets differ", ToString(<<v2.running, E.run>>)) ELSE @]
+                                             ELSE IF ~runOK THEN Bad("running sets (or tokens left in the jobserver pool) differ", ToString(<<v2.running, E.run, v2.free, E.fifo>>)) ELSE @]
                /\ UNCHANGED <<raw, disk, blog, dlog, dfile, L, pc, inv, on>> /\ KeepW
        [] E.e = "Done" /\ on ->
             LET v == RunPhony(iv, Fuel)
@@ -112,7 +113,10 @@ TStep ==
                           [] msg = "failed" -> E.mc = "failed"
                           [] msg = "noprogress" -> E.mc = "noprogress"
                           [] OTHER -> FALSE
-            IN /\ res' = [res EXCEPT !.steps = @ + 1, !.agree = @ + (IF ended /\ same THEN 1 ELSE 0),
+                \* endings the model does not have (a command that could not be started, a load error in mid-build, ...)
+                modelled == E.mc \in {"ok", "nowork", "missing", "failed", "noprogress", "stuck"}
+            IN /\ res' = IF ~modelled THEN res ELSE
+                         [res EXCEPT !.steps = @ + 1, !.agree = @ + (IF ended /\ same THEN 1 ELSE 0),
                                      !.bad = IF ~ended THEN Bad("the code left the loop while the model still has work it can do", ToString(<<v.ready, v.running>>))
                                              ELSE IF ~same THEN Bad("the loop ended differently", ToString(<<msg, E.mc>>)) ELSE @]
                /\ on' = FALSE /\ pc' = "idle" /\ inv' = NoInv
